@@ -28,7 +28,7 @@ ASSUMPTIONS = [
     "equality model: same container kind and same detector shape and (both empty or numpy.array_equal of contents)",
 ]
 COMPONENTS = {"real": ["pyxel.data_structure containers", "Detector container properties"], "stub": []}
-BUDGET = {"quick": {"n": 3200, "wall": 100, "determinism": 4}, "thorough": {"n": 800000, "wall": 1500, "determinism": 12}}
+BUDGET = {"quick": {"n": 3200, "wall": 100, "determinism": 4}, "thorough": {"n": 1600000, "wall": 1500, "determinism": 12}}
 REQUIRED_REACH = ["op:set", "op:update", "op:iadd", "op:add", "op:empty", "op:read", "op:compare", "op:det_assign", "rejected_ops", "compare_empty_vs_filled", "iadd_on_empty", "photon3d_ops", "phase_ops"]
 
 FLOATS = ("float16", "float32", "float64")
